@@ -1,4 +1,4 @@
-from checks.mux_common import mc, drive, validate, gated_replay, __doc__  # noqa
+from checks.mux_common import mc, drive, validate, gated_replay, stray_frames, __doc__  # noqa
 import vlib
 
 
@@ -54,6 +54,10 @@ def run(ctx):
     ctx.coverage["explanation"] = f"every permutation of {n} concurrent calls per client kind; interleavings of callers and reader at register/write/receive/match/deliver granularity are exhausted in the TLC model only"
     notify_slot(ctx, q)
     gated_replay(ctx, q, "MC_ClientMuxGen.cfg")
+    # forwarded requests (forward_message, async client) reusing ids of the client's own calls, every other reply an error
+    # reply; the caller's Take is the probe cm_received (response handed over, not yet validated)
+    gated_replay(ctx, q, "MC_ClientMuxGen_forward.cfg", kinds=("async",), n_quick=600, n_thorough=4000)
+    stray_frames(ctx, "C04")
     evs = vlib.read_ndjson(runs[2][1])
     ctx.sample({"kind": "one scripted scenario against the WebSocket client", "events": evs[:16]})
     ctx.assume("the scripted server learns which caller issued which id from a tag in the request path",
